@@ -773,6 +773,10 @@ def _is_callable_term(t):
 
 
 COND_KINDS = {
+    "badoperands",
+    "nonstr-elements",
+    "mixed-elements",
+    "unhashable-elements",
     "ret",
     "has",
     "nothas",
